@@ -41,3 +41,110 @@ type ghostExit struct {
 //@   allocs input.ChordMetaTextMotifier
 //@   ensures ok == (c == "cmt")
 //@   ensures ok ==> m != nil
+
+// ---- flags override the first instance, and nonsense flag values are refused (C01, C07, C09) ----
+
+//@ func getBPM returns (b, err)
+//@   pure
+//@   ensures err == nil ==> b != 0
+
+//@ func getVelocity returns (d, err)
+//@   pure
+//@   ensures err == nil ==> op.validDyn(d)
+
+//@ func getMeter returns (m, err)
+//@   pure
+//@   ensures err == nil ==> m.Num >= 1 && m.Denom >= 1
+
+//@ func getKey returns (k, err)
+//@   pure
+
+// each setting is either left as the document has it or replaced by a valid value given on the command line
+//@ func overrideInstanceFromFlags returns (err)
+//@   modifies instance
+//@   allocs op.BPM, op.DynamicSign, op.Meter, op.Key
+//@   requires instance != nil
+//@   ensures instance.Chord == old(instance.Chord) && instance.Values == old(instance.Values) && instance.Meta == old(instance.Meta)
+//@   ensures err == nil ==> instance.BPM == old(instance.BPM) || (instance.BPM != nil && fresh(instance.BPM) && *instance.BPM != 0)
+//@   ensures err == nil ==> instance.Velocity == old(instance.Velocity) || (instance.Velocity != nil && fresh(instance.Velocity) && op.validDyn(*instance.Velocity))
+//@   ensures err == nil ==> instance.Meter == old(instance.Meter) || (instance.Meter != nil && fresh(instance.Meter) && instance.Meter.Num >= 1 && instance.Meter.Denom >= 1)
+//@   ensures err == nil ==> instance.Key == old(instance.Key) || (instance.Key != nil && fresh(instance.Key))
+
+// the dictionary (built-ins plus --attr/--chord files): read through yaml, assumed to return a dictionary or an error
+//@ func newChordMap returns (m, err)
+//@   trusted
+//@   allocs chord.Map, map[string]chord.Attribute, map[string]chord.Chord
+//@   ensures err == nil ==> m != nil
+
+//@ iface chord.Mapper.GetChord (m, nameOrDisplay) returns (c, ok)
+//@   pure
+
+// from the document to what is played: one instance per document entry, in order, durations and settings as
+// written (only the first entry takes flag overrides), chords with their degree and bass as written and their
+// symbol resolved in the dictionary - an unknown symbol is an error
+//@ define copied(v, x) v.Values == x.Values && v.Meta == x.Meta && (v.Chord != nil) == (x.Chord != nil) && (x.Chord != nil ==> v.Chord.Degree == x.Chord.Degree && v.Chord.Base == ite(x.Chord.Base != nil, *x.Chord.Base, op.defaultChordBase))
+//@ define sameSettings(v, x) v.BPM == x.BPM && v.Velocity == x.Velocity && v.Meter == x.Meter && v.Key == x.Key
+//@ func newWriteCmdArgsFromInputInstances returns (r, err)
+//@   allocs writeCmdArgs, []op.Instance, op.Instance, op.Chord, op.BPM, op.DynamicSign, op.Meter, op.Key, chord.Map, map[string]chord.Attribute, map[string]chord.Chord, midix.TrackSetController, midix.TrackNoSelectorImpl, midix.TrackSet, midix.Track, []*midix.Track
+//@   requires forall(i, 0, len(inputInstances), inputInstances[i] != nil)
+//@   ensures err == nil ==> r != nil && fresh(r)
+//@   ensures err == nil ==> r.cmap != nil
+//@   ensures err == nil ==> r.trackSet != nil
+//@   ensures err == nil ==> len(r.instances) == len(inputInstances)
+//@   ensures err == nil ==> forall(i, 0, len(inputInstances), copied(r.instances[i], inputInstances[i]))
+//@   ensures err == nil ==> forall(i, 1, len(inputInstances), sameSettings(r.instances[i], inputInstances[i]))
+//@   loop 0 allocs op.Instance, op.Chord, op.BPM, op.DynamicSign, op.Meter, op.Key
+//@   loop 0 modifies instances
+//@   loop 0 invariant 0 - 1 <= rangeindex && rangeindex < len(inputInstances) && len(instances) == len(inputInstances)
+//@   loop 0 invariant forall(i, 0, rangeindex + 1, copied(instances[i], inputInstances[i]))
+//@   loop 0 invariant forall(i, 1, rangeindex + 1, sameSettings(instances[i], inputInstances[i]))
+//@   loop 0 decreases len(inputInstances) - rangeindex
+
+// ---- write conv prints what write reads (C10) ----
+
+// ghostPrinted: the value a command handed to yaml for printing (defined by the assumed contract of writeYamlOutput,
+// whose body is getOutput + yaml.Marshal + Write)
+type ghostPrinted struct {
+	V any
+}
+
+//@ func writeYamlOutput returns (err)
+//@   trusted
+//@   modifies ghostPrinted
+//@   ghostensures ghost(ghostPrinted, cmd).V == v
+
+// reading the document goes through yaml (assumed): on success every entry is there
+//@ func parseInstancesFromArgs returns (r, err)
+//@   trusted
+//@   allocs []*input.Instance, input.Instance
+//@   ensures err == nil ==> forall(i, 0, len(r), r[i] != nil)
+
+//@ iface input.Modifier.Modify (m, v) returns (err)
+//@   modifies input.Instance, op.Meta, map[string]string
+//@   allocs op.Meta, map[string]string
+//@   requires v != nil
+
+// on success the command has printed the modified *input* instances - the document type that `crd write` reads -
+// after checking them the way write does
+//@ func init$writeCmdConv.RunE returns (err)
+//@   modifies ghostPrinted, input.Instance, op.Meta, map[string]string
+//@   allocs []*input.Instance, input.Instance, input.ChordMetaTextMotifier, []Iface, op.Meta, map[string]string, writeCmdArgs, []op.Instance, op.Instance, op.Chord, op.BPM, op.DynamicSign, op.Meter, op.Key, chord.Map, map[string]chord.Attribute, map[string]chord.Chord, midix.TrackSetController, midix.TrackNoSelectorImpl, midix.TrackSet, midix.Track, []*midix.Track
+//@   requires cmd != nil
+//@   ensures err == nil ==> is(ghost(ghostPrinted, cmd).V, []*input.Instance)
+//@   loop 0 allocs input.ChordMetaTextMotifier, []Iface
+//@   loop 0 invariant 0 - 1 <= rangeindex && rangeindex < len(commands)
+//@   loop 0 invariant forall(i, 0, len(modifiers), modifiers[i] != nil)
+//@   loop 0 invariant forall(i, 0, len(instances), instances[i] != nil)
+//@   loop 0 decreases len(commands) - rangeindex
+//@   loop 1 modifies input.Instance, op.Meta, map[string]string
+//@   loop 1 allocs op.Meta, map[string]string
+//@   loop 1 invariant 0 - 1 <= rangeindex && rangeindex < len(modifiers)
+//@   loop 1 invariant forall(i, 0, len(modifiers), modifiers[i] != nil)
+//@   loop 1 invariant forall(i, 0, len(instances), instances[i] != nil)
+//@   loop 1 decreases len(modifiers) - rangeindex
+//@   loop 2 modifies input.Instance, op.Meta, map[string]string
+//@   loop 2 allocs op.Meta, map[string]string
+//@   loop 2 invariant 0 - 1 <= rangeindex && rangeindex < len(instances)
+//@   loop 2 invariant forall(i, 0, len(modifiers), modifiers[i] != nil)
+//@   loop 2 invariant forall(i, 0, len(instances), instances[i] != nil)
+//@   loop 2 decreases len(instances) - rangeindex
